@@ -155,6 +155,18 @@ def check_dual(ctx, case, g, m, sig0, with_data=True):
         if interior and not local:
             ctx.observe("node_with_face_beyond_hemisphere")
         if interior and local:
+            # mechanism feature: does some face at this node have its centre outside the wedge it occupies at the node (possible only
+            # for a non-convex face)?  The library orders by the direction of the centres.
+            outside = False
+            for f in ring:
+                ff = m.faces[f]
+                j = ff.index(n)
+                nxt, prv = m.xyz[ff[(j + 1) % len(ff)]], m.xyz[ff[j - 1]]
+                ang = lambda p: math.atan2(np.dot(p - nv, e2), np.dot(p - nv, e1))  # noqa: E731
+                a0_, a1_, ac_ = ang(nxt), ang(prv), ang(cent[f])
+                if not (np.mod(ac_ - a0_, 2 * math.pi) < np.mod(a1_ - a0_, 2 * math.pi)):
+                    outside = True
+            sig = dict(sig, centre_outside_wedge=outside)
             adj = True
             for j in range(len(ring)):
                 a, b = ring[j], ring[(j + 1) % len(ring)]
